@@ -22,7 +22,7 @@ def mc_generic(work, module, consts, invariants, timeout=3000, spec="Spec"):
         brief = "\n".join(l[:300] for l in out.splitlines() if not l.startswith('<<"CASE"'))
         raise Broken("design check %s failed - the model itself violates its invariants or TLC broke:\n%s" % (module, brief[-3000:]))
     cases = []
-    for line in out.splitlines():
+    for line in sorted(l for l in out.splitlines() if l.startswith('<<"CASE"')):      # TLC's workers print in any order: ids must not depend on it
         m = CASE_RE.match(line)
         if m:
             cases.append(json.loads(json.loads(m.group(1))))
@@ -39,7 +39,7 @@ def mc_codec(work, cfgs, emit, invariants="RoundTrip Walkable MatcherSound Proto
         brief = "\n".join(l[:300] for l in out.splitlines() if not l.startswith('<<"CASE"'))
         raise Broken("design check %s failed - the model itself violates its invariants or TLC broke:\n%s" % (module, brief[-3000:]))
     cases = []
-    for line in out.splitlines():
+    for line in sorted(l for l in out.splitlines() if l.startswith('<<"CASE"')):
         m = CASE_RE.match(line)
         if m:
             cases.append(json.loads(json.loads(m.group(1))))
@@ -81,6 +81,8 @@ def trivial(e):
     ev = e.get("ev")
     if ev == "prim":
         return not e.get("u") and not e.get("data")
+    if ev == "typedef":
+        return not e.get("T", {}).get("f") and e.get("T", {}).get("k") == "struct"
     if ev == "hostile":
         return not e.get("input")
     if ev == "hist":
